@@ -173,6 +173,18 @@ CHECKS = {
         "alpha(original) = model(h) and gives alpha(copy) = model(h ++ h2); SWC cells keep xyzr and their radius functions (set_ncomp after "
         "the round trip gives the same radii) and remain independent.",
    note="Everything about pickle/deepcopy is measured, not proved. " + TRUST),
+ "C05": dict(cat="other", ref="DESIGN.md §4 C05",
+   technique="Lean 4: forward-mode (dual number) evaluation computes the derivative for the kernels' expression language; the Lean cable model run over dual numbers vs jax.grad vs Richardson finite differences",
+   text="jax.grad is a runtime program transformation: its correctness is trusted. Proved: evaluating an expression of the language in "
+        "which the kernels are written (+,-,*,/,neg,exp,log,tanh) over the SAME dual-number arithmetic the executable model uses yields "
+        "the value and HasDerivAt-derivative wherever defined; the tangent is linear in the seed; dual division returns the derivative "
+        "of the implicit solve (A x' = b' - A' x); the derivative w.r.t. a parameter shared by a group is the sum of the per-row "
+        "partials (any group, any n). Measured on every run: <jax.grad, d> on the real code (all solvers x backends x checkpoint "
+        "layouts, exact and padded) vs the forward-mode derivative of the Lean cable model over dual numbers (agree to ~1e-12) and vs "
+        "Richardson-extrapolated central differences; active models with make_trainable on channel, synapse, geometry and "
+        "initial-state keys incl. groups of unequal size: jax.grad vs finite differences.",
+   note=TRUST + "JAX AD, jax.checkpoint and the custom VJP of spsolve are trusted runtime; the reflection of each generated kernel into the "
+        "expression language is not generated (the theorem is about the language, the dual run about the cable model). Partial."),
 }
 
 def main():
